@@ -131,7 +131,8 @@ mod verif_kani_trie {
                 assert!(s.byte[k] == bytes[len - 1]);
             }
         }
-        assert!(trie.token_id_at_bytes(&bytes[..len]) == want.and_then(|k| if s.tok[k] == NO_TOKEN { None } else { Some(s.tok[k]) }));
+        let want_tok = want.and_then(|k| if s.tok[k] == NO_TOKEN { None } else { Some(s.tok[k]) });
+        assert!(trie.token_id_at_bytes(&bytes[..len]) == want_tok);
         assert!(trie.has_extensions(&bytes[..len]) == want.map_or(false, |k| s.size[k] > 1));
         core::mem::forget(trie);
     }
